@@ -561,20 +561,21 @@ def run(ctx, replay_cases=None):
         ctx.coqchk()
 
     def search():
-        # extra budget: more random sequences through the monitors
-        os.environ["VERIF_SEED_EXTRA"] = "1"
-        tool2 = tool
-        head2, more, _ = None, None, None
-        p = os.path.join(ctx.scratch, "extra.jsonl")
-        rc, out, dt = vlib.run_tool(tool2, [p, "thorough"], env_extra={"VERIF_SEED": str(ctx.seed + 1)}, timeout=1500)
-        if rc != 0:
-            return None
-        rows = vlib.read_jsonl(p)
-        tx = {t["id"]: t for t in rows[0]["texts"]}
-        for c in rows[1:]:
-            for (i, what, cls) in monitor_case(c, tx):
-                if ctx.match_known(cls, "monitor") is None:
-                    return dict(slim(c, i), what=what, cls=cls)
+        # extra budget: further generated sequences (other seeds) through the monitors
+        for extra in (1, 2, 3):
+            p = os.path.join(ctx.scratch, "extra-%d.jsonl" % extra)
+            rc, out, dt = vlib.run_tool(tool, [p, "quick"], env_extra={"VERIF_SEED": str(ctx.seed + extra)}, timeout=600)
+            if rc != 0:
+                return None
+            rows = vlib.read_jsonl(p)
+            os.remove(p)
+            tx = {t["id"]: t for t in rows[0]["texts"]}
+            for c in rows[1:]:
+                if c.get("fatal"):
+                    continue
+                for (i, what, cls) in monitor_case(c, tx):
+                    if ctx.match_known(cls, "monitor") is None:
+                        return dict(slim(c, i), what=what, cls=cls)
         return None
     return ctx.finish(search=search)
 
